@@ -290,6 +290,20 @@ def f23_dir_onto_file_multi(xcp, d):
     left = sorted(os.listdir(os.path.join(w, "dest")))
     return [] if rc != 0 and left == ["sd"] else ["exit %d, dest now holds %s" % (rc, left)]
 
+def f24_backup_number_beyond_u64(xcp, d):
+    """C09: an existing f.~<20 digits>~ is a backup: auto mode must not overwrite f without preserving it"""
+    bad = []
+    for mode in ("auto", "numbered"):
+        w = os.path.join(d, mode); os.makedirs(w)
+        open(os.path.join(w, "src"), "w").write("new\n"); open(os.path.join(w, "f"), "w").write("old\n")
+        open(os.path.join(w, "f.~99999999999999999999~"), "w").write("older\n")
+        rc, err = run(xcp, ["--backup=" + mode, "src", "f"], w)
+        kept = any(open(os.path.join(w, n)).read() == "old\n" for n in os.listdir(w))
+        low = os.path.exists(os.path.join(w, "f.~1~"))
+        if not kept or low:
+            bad.append("%s: exit %d, old content preserved somewhere: %s, a number below the existing one handed out: %s" % (mode, rc, kept, low))
+    return bad
+
 ALL = {"new:create-before-identity-check": f1_self_copy, "parfile:symlink-result-discarded": f2_symlink_result,
        "copy_node:dev-not-rdev": f3_device_number, "parblock:short-copy-not-retried": f5_short_copy,
        "walker:deref-does-not-follow-dir-links": f8_deref_dir_link, "finalise:chown-after-chmod": f9_setid_ownership,
@@ -305,7 +319,8 @@ ALL = {"new:create-before-identity-check": f1_self_copy, "parfile:symlink-result
        "backup:readdir-error-swallowed": f20_backup_readdir_error,
        "uspace-range:eof-is-an-error": f21_parblock_fallback_eof,
        "main:same-file-by-spelling-only": f22_same_file_by_spelling,
-       "main:dir-onto-file-multi-source": f23_dir_onto_file_multi}
+       "main:dir-onto-file-multi-source": f23_dir_onto_file_multi,
+       "backup:number-beyond-u64": f24_backup_number_beyond_u64}
 
 def main():
     repo = sys.argv[1]
